@@ -12,6 +12,7 @@ mod common;
 mod geom;
 mod plan;
 mod proto;
+mod sched;
 mod serde_fam;
 mod history;
 mod refenc;
@@ -35,6 +36,7 @@ fn run_case(family: &str, args: &[u128]) -> Vec<u128> {
         "agree_ob" => proto::agree_ob(args),
         "history" => history::history(args),
         "serde" => serde_fam::serde_case(args),
+        "sched" => sched::sched(args),
         _ => panic!("unknown family {family}"),
     }
 }
